@@ -101,7 +101,17 @@ Section UMNListing.
              | [] => Raise IndexError                       (* file[0] *)
              | _ =>
                if is_dot n then
-                 if w_isdir w n then umn_scan r files links  (* a "dot dir" *)
+                 if fx_dot_safe fx then
+                   (* repaired: only a regular file is read, an unreadable one is skipped *)
+                   match w_stat w n with
+                   | Some KFile =>
+                       match w_text w n with
+                       | Some text => bind (plf None text) (fun ls => umn_scan r files (links ++ ls))
+                       | None => umn_scan r files links
+                       end
+                   | _ => umn_scan r files links
+                   end
+                 else if w_isdir w n then umn_scan r files links  (* a "dot dir" *)
                  else match w_text w n with
                       | None => Raise IOErr
                       | Some text =>
